@@ -309,9 +309,9 @@ class DT(Inverter):
         raise InverterError("Operation not supported, inverter has no batteries.")
 
     def _get_sensor(self, sensor_id: str) -> Sensor | None:
-        if self._sensors_map is None or sensor_id not in self._sensors_map:
-            # (re)build the map, the set of available sensors may have changed since it was created
-            self._sensors_map = {s.id_: s for s in self.sensors()}
+        # always resolve against the current list, the set of available sensors (and which definition
+        # an id stands for) changes at runtime
+        self._sensors_map = {s.id_: s for s in self.sensors()}
         return self._sensors_map.get(sensor_id)
 
     def sensors(self) -> tuple[Sensor, ...]:
